@@ -9,7 +9,9 @@ PROP = {'level': 'proof',
           'component, in order (a single pattern takes the whole payload), rejects 0 and more than 6 '
           'patterns, and the macros then equal `let (..) = r?` / `if let Ok((..)) = r`; '
           'min!/max!/min_by!/max_by!/min_by_key! equal std::cmp for every comparator, max_by_key! for every '
-          'antisymmetric key comparison, ties included (36 theorems). The model is tied to the code by '
+          'antisymmetric key comparison, ties included; the emitted assignments come in component order and, '
+          'run on any store with any place resolution, equal the sequence `p0 = t.0; p1 = t.1; ...` '
+          '(38 theorems). The model is tied to the code by '
           'generated Rust programs that expand the real macros: every macro x argument form x both variants '
           "x boundary payloads, rebind patterns of every arity with rustc's accept/reject verdict, all key "
           'pairs for min/max.',
@@ -22,7 +24,10 @@ PROP = {'level': 'proof',
          '{place, let, typed let, _} for k<=4 (k<=5 thorough) and a seeded sample covering every kind at '
          'every position for larger k up to 6 (32 each for k=5,6 quick; 400 for k=6 thorough; per macro), '
          'two Ok payloads + Err, plus expression places, typed `_`, typed places, bare single patterns, '
-         'trailing commas, rebind_if_ok! without code, and the out-of-scope shapes (0 or 7 patterns, '
+         'trailing commas, rebind_if_ok! without code, order-observing pattern lists for every arity 2..=6 '
+         '(places that index through / repeat / shadow a variable another component assigns: 12 conflict kinds '
+         'at rotating position pairs, triples and chains; 237 units quick, 910 thorough) compared with the '
+         'hand-written assignment sequence, and the out-of-scope shapes (0 or 7 patterns, '
          "more/fewer patterns than components) with rustc's verdict; min!/max!/_by/_by_key in every closure "
          'form x all ordered pairs of keys from {i64::MIN,-1,0,1,i64::MAX} (+17 keys thorough) with '
          'distinguishable identity.',
